@@ -678,7 +678,7 @@ void ApiRun::op_iter_next(const Op &o) {
     } catch (Violation &vi) { bad.reset(new Violation(vi)); }
     if (pk) cif_packet_free(pk);
     if (bad) throw *bad;
-    if (iter_fault_hit) { Op e = o; op_iter_end(e, true); }
+    if (iter_fault_hit) { Op e = o; op_iter_end(e, true, true); }
 }
 void ApiRun::op_iter_update(const Op &o) {
     int ci = pick_iter_cif(this, o.a); if (ci < 0) SKIP("no open iterator");
@@ -700,7 +700,7 @@ void ApiRun::op_iter_update(const Op &o) {
     } catch (Violation &vi) { bad.reset(new Violation(vi)); }
     cif_packet_free(pk.p);
     if (bad) throw *bad;
-    if (iter_fault_hit) { Op e = o; op_iter_end(e, true); return; }
+    if (iter_fault_hit) { Op e = o; op_iter_end(e, true, true); return; }
     if (rc == CIF_OK && hi.cur_valid && !foreign) { for (auto &p : l->packets) if (p.uid == hi.cur) for (auto &it : pk.items) p.vals[it.first.norm] = it.second; }
 }
 void ApiRun::op_iter_remove(const Op &o) {
@@ -710,7 +710,7 @@ void ApiRun::op_iter_remove(const Op &o) {
     iter_fault_hit = false;
     int rc = CALLI("cif_pktitr_remove_packet", cif_pktitr_remove_packet(hi.it));
     cover(o.k, rc, hmix((uint64_t) hi.state, hi.cur_valid ? 1 : 0));
-    if (iter_fault_hit) { Op e = o; op_iter_end(e, true); return; }
+    if (iter_fault_hit) { Op e = o; op_iter_end(e, true, true); return; }
     if (!hi.cur_valid) expect_rc("cif_pktitr_remove_packet", rc, {CIF_MISUSE});
     else if (hi.state == IT_FINISHED) expect_rc("cif_pktitr_remove_packet", rc, {CIF_OK, CIF_MISUSE});
     else expect_rc("cif_pktitr_remove_packet", rc, {CIF_OK});
@@ -719,10 +719,16 @@ void ApiRun::op_iter_remove(const Op &o) {
         hi.cur_valid = false; if (hi.state != IT_FINISHED) hi.state = IT_REMOVED;
     }
 }
-void ApiRun::op_iter_end(const Op &o, bool abort) {
+void ApiRun::op_iter_end(const Op &o, bool abort, bool after_fault) {
     int ci = pick_iter_cif(this, o.a); if (ci < 0) SKIP("no open iterator");
     RCif &c = cifs[(size_t) ci]; HIter &hi = iters[(size_t) c.iter];
     int rc = abort ? CALLN("cif_pktitr_abort", cif_pktitr_abort(hi.it)) : CALLN("cif_pktitr_close", cif_pktitr_close(hi.it));
+    if (after_fault && rc == CIF_ERROR && sqlite3_get_autocommit(c.cif->db) != 0) {
+        // the storage engine rolled the transaction back by itself when the iterator call ran out of memory; the library's
+        // own rollback then has nothing to roll back and cif_pktitr_abort reports CIF_ERROR although the abort took effect
+        // (the dump comparison below checks that it did)
+        g_stats.inc("iter.abort_after_engine_rollback"); ev("cif_pktitr_abort -> CIF_ERROR after the engine's own rollback (accepted)"); rc = CIF_OK;
+    }
     hi.it = NULL; loops[(size_t) hi.loop_slot].locked = false; c.iter = -1;
     cover(abort ? O_IterAbort : O_IterClose, rc, (uint64_t) hi.state);
     if (abort) {
